@@ -165,8 +165,16 @@ class Gen:
     def sig_pool(self, gnss):
         return [(b, a) for _, b, a in self.s["sig_tables"][gnss]]
 
-    def bad_sig(self, r):
-        return r.choice([(1, ord("z")), (19, ord("C")), (0, 0), (255, 0xFF), (2, ord("c")), (1, 0x20AC)])
+    def bad_sig(self, r, gnss=None):
+        base = [(1, ord("z")), (19, ord("C")), (0, 0), (255, 0xFF), (2, ord("c")), (1, 0x20AC)]
+        if gnss is not None and r.random() < 0.6:
+            # an alias of a recognised descriptor: same band, attribute equal after truncation / mask / case fold
+            b, a = r.choice(self.sig_pool(gnss))
+            rec = set(self.sig_pool(gnss))
+            al = [(b, v) for v in alias_chars(a) if (b, v) not in rec]
+            if al:
+                return r.choice(al)
+        return r.choice(base)
 
     # ------------------------------------------------------------------ fragments
     def frag(self, r, fid, mode, lens=None):
@@ -286,7 +294,7 @@ class Gen:
         elif invalid == "sat65":
             S.append(r.choice([65, 200, 255]))
         elif invalid == "badsig":
-            cells[r.randrange(len(cells))] = (cells[0][0], self.bad_sig(r))
+            cells[r.randrange(len(cells))] = (cells[0][0], self.bad_sig(r, gnss))
         elif invalid == "dupsat":
             S.append(S[0])
         elif invalid == "dupcell":
@@ -350,14 +358,23 @@ class Gen:
             k = r.choice([31, 32, 33, 40]) if shape == "over31" else len(table)
             for i in range(k):
                 ent.append((s, table[i % len(table)]))
-        elif shape == "flood":
-            # hundreds of entries on one satellite (signals repeat): counters wider than the 5-bit field
+        elif shape.startswith("flood"):
+            # many entries on one satellite (signals repeat): counters wider than the 5-bit field
             s = r.randrange(maxsat + 1)
-            k = r.choice([255, 256, 257, 300, cap])
+            k = int(shape[5:]) if shape[5:] else r.choice([255, 256, 257, 300, cap])
             for i in range(k):
                 ent.append((s, table[i % len(table)]))
             for j in range(min(cap - k, r.choice([0, 3]))):
                 ent.append(((s + 1 + j) % (maxsat + 1), r.choice(table)))
+        elif shape == "latefail":
+            # a long body written before the encoder refuses the list: every satellite but the last is fine,
+            # the highest-numbered one carries more than 31 entries
+            per = min(6, len(table))
+            for s_ in range(maxsat - 5 if n1059 else maxsat):
+                for g_ in table[:per]:
+                    ent.append((s_, g_))
+            for i in range(r.choice([32, 33, 40])):
+                ent.append((maxsat, table[i % len(table)]))
         elif shape.startswith("capsats"):
             # capacity entries spread round-robin over k satellites (distinct signals inside a satellite)
             k = min(int(shape[7:]), maxsat + 1)
